@@ -17,6 +17,7 @@ ENTRIES = {
     "f.txt": "file", "x.rs/in.rs": "file-in-dir-named-rs", "n1/n2/deep.rs": "file", "ln.rs": "symlink->a.rs", "out.rs": "symlink->outside/o.rs",
     "lnd": "dirsymlink->outside", "self.rs": "symlink->self.txt",
     "d1/d2/d3/d4/d5/d6/d7/d8/d9/d10/d11/d12/deep.rs": "file", ("long_" + "n" * 180 + ".rs"): "file", "dir.with.dots/x.y.rs": "file", ".hidden/h.rs": "file",
+    "a.tmp": "file", "a.bak": "file", "a": "file", "a.rs.new": "file", ".a.rs.swp": "file",
     "a.rs.tmp": "file", "a.rs~": "file", "é.rs.tmp": "symlink->outside/o.rs", "sp ace.rs.tmp": "dirsymlink->outside",
 }
 EXT_LISTS = {"omitted": None, "[rs]": ["rs"], "[rs,rsx]": ["rs", "rsx"], "[RS]": ["RS"], "[txt]": ["txt"]}
@@ -160,7 +161,7 @@ def run(tier, v):
                     v.violation("%s:src=%s:cfg=%s:cwd=%s" % (b, "abs" if sf == "ABS" else "rel", cf, cw) if "scope" not in b else "%s:ext=%s" % (b, en),
                                 {"entries": list(subset), "extensions": en, "source_dir": sf, "config_path": cf, "cwd": cw, "mode": "check" if check else "edit",
                                  "exit": ex, "expected_in_scope": want, "changed": changed, "reported": reported, "stdout": out.decode("utf-8", "replace")})
-    v.subspace("subsets of 23 directory entries (size <= %d + the full set) x extensions{omitted,[rs],[rs,rsx],[RS],[txt]} x source_dir{./src,src,absolute} x "
+    v.subspace("subsets of 28 directory entries (size <= %d + the full set) x extensions{omitted,[rs],[rs,rsx],[RS],[txt]} x source_dir{./src,src,absolute} x "
                "config path{relative,absolute} x cwd{config dir,parent,unrelated} x mode%s" % (3 if tier == "thorough" else 2,
                "" if tier == "thorough" else " (quick: every 6th (subset,configuration) pair, the full set with every configuration)"),
                len(alljobs), exhaustive=(tier == "thorough"))
